@@ -35,7 +35,7 @@ struct HRec {
 };
 struct World {
 	std::vector<HRec> h; int live_functors = 0; int loop_thread = -1, loop_thread2 = -1; bool stop_called = false; bool pair_starved = false; int pair_waits = 0; int loop_restarts = 0;
-	int dev_cycles = 0, dev_reused = 0, dev_stale = 0, dev_attached = 0, burst_timers = 0; std::string dup_timer_id; std::map<int,int> stale_fd;   /* descriptor number -> handler of the device closed by a non-loop thread whose cancel the loop may not have applied yet */ std::map<std::pair<int,int>,bool> armed; std::set<int> xcancelled_fds; std::vector<std::pair<int,uint64_t>> xcancels; uint64_t evseq = 0;
+	int dev_cycles = 0, dev_reused = 0, dev_stale = 0, dev_attached = 0, burst_timers = 0, pipe_waits = 0; std::vector<int> pipe_fds; std::string dup_timer_id; std::map<int,int> stale_fd;   /* descriptor number -> handler of the device closed by a non-loop thread whose cancel the loop may not have applied yet */ std::map<std::pair<int,int>,bool> armed; std::set<int> xcancelled_fds; std::vector<std::pair<int,uint64_t>> xcancels; uint64_t evseq = 0;
 	int add(const std::string &k){ simk::TsanIgnore ign; h.emplace_back(); h.back().kind = k; return (int)h.size()-1; }
 };
 World *W = nullptr;
@@ -103,6 +103,7 @@ struct E6 : Engine {
 				else if(x < 90 && npairs){ o["op"] = "ready"; o["p"] = (int)r.below(npairs); o["n"] = 1 + (int)r.below(50); }
 				else if(x < 93){ o["op"] = "sleep"; o["ms"] = (int)r.below(25); }
 				else if(x < 97){ o["op"] = "dev"; o["early"] = (int)r.below(3); o["dir2"] = (int)r.below(2); o["gap"] = (int)r.below(3); o["settle"] = (int)(r.below(3) != 0); o["xfer"] = r.below(2) ? (int)(1 + r.below(50)) : 0; o["attach"] = (int)(r.below(4) == 0); }   /* attach: the first device does not own its descriptor (attach()); close() must cancel its wait all the same, the descriptor is closed by the thread itself */   // a device owned by this thread: armed, closed by this thread, then a new device on the re-used descriptor number
+				else if(x == 97 && r.below(2) == 0){ o["op"] = "pipe_hup"; o["data"] = (int)(r.below(3) == 0); }   /* a wait for readability on the read end of a pipe whose only writer goes away without writing: the kernel reports a hang-up with no "in" bit */
 				else if(x == 98 && r.below(2) == 0){ o["op"] = "io_bad"; o["dir"] = (int)r.below(2); }   /* a wait armed on something that is no descriptor: the error is a completion like any other - once, on the loop thread */
 				else if(x == 99 && r.below(12) == 0){ o["op"] = "burst"; o["n"] = 700 + (int)r.below(700); o["keep"] = (int)r.below(3); }   /* hundreds of timers pending at once on one io_service (a busy server: one time-out per connection) */
 				else { o["op"] = "yield"; }
@@ -275,6 +276,7 @@ struct E6 : Engine {
 					if(op == "post"){ int h = w.add("post"); w.h[h].posted_after_stop = w.stop_called; if(o.geti("throws")) srv.post(ThrowingFn(h)); else srv.post(Fn(h)); }
 					else if(op == "timer"){ int h = w.add("timer"); int64_t ms = std::max<int64_t>(-1000,std::min<int64_t>(o.geti("ms"),100000)); w.h[h].posted_after_stop = w.stop_called; w.h[h].deadline_us = simk::now_us() + ms*1000;
 						ptime at = ptime(w.h[h].deadline_us/1000000,(int)((w.h[h].deadline_us%1000000)*1000)); int id = srv.set_timer_event(at,Fn(h)); tids.push_back(id); thids.push_back(h); }
+					else if(op == "pipe_hup"){ int pp[2]; if(::pipe(pp) == 0){ fcntl(pp[0],F_SETFL,O_NONBLOCK); int h = w.add("pipe_in"); w.h[h].posted_after_stop = w.stop_called; { simk::TsanIgnore ign; auto it = w.stale_fd.find(pp[0]); if(it != w.stale_fd.end()){ w.h[it->second].aba = true; w.h[h].aba = true; } }   /* the pipe got the number of a device another thread has just closed and whose cancel the loop may not have applied yet: known finding descriptor-reused-before-deferred-cancel */ srv.set_io_event(pp[0],aio::io_events::in,Fn(h)); if(o.geti("data")) (void)!::write(pp[1],"x",1); ::close(pp[1]); simk::TsanIgnore ign; w.pipe_fds.push_back(pp[0]); w.pipe_waits++; } }
 					else if(op == "io_bad"){ int h = w.add("io_bad"); w.h[h].posted_after_stop = w.stop_called; srv.set_io_event(-1,o.geti("dir") ? aio::io_events::out : aio::io_events::in,Fn(h)); }
 					else if(op == "burst"){   /* many timers pending at once: every one gets an id of its own, and cancelling an id completes that wait and no other */
 						int n = (int)std::max<int64_t>(1,std::min<int64_t>(o.geti("n"),1600)); std::vector<int> ids,hids; std::set<int> seen; int64_t base = simk::now_us() + 3600LL*1000000;
@@ -386,11 +388,11 @@ struct E6 : Engine {
 				(void)first2; } }
 			for(auto &ch:chains){ ch->timer.reset(); ch->canceler.reset(); if(ch->sock){ booster::system::error_code e; ch->sock->close(e); } if(ch->peer >= 0 && !ch->peer_closed) ::close(ch->peer);
 				if(ch->acc){ booster::system::error_code e; ch->acc->close(e); } for(auto &a:ch->accepted){ booster::system::error_code e; a->close(e); } if(ch->lfd >= 0) ::close(ch->lfd); }
-			for(int fd:env_conns) ::close(fd);
+			for(int fd:env_conns) ::close(fd); for(int fd:w.pipe_fds) ::close(fd);
 			for(auto &pr:pairs){ ::close(pr.first); ::close(pr.second); }
 		}
 		if(res.ok && !w.dup_timer_id.empty()) res.fail("timer-id-not-unique",w.dup_timer_id);
-		res.counters["burst_timers"] = w.burst_timers;
+		res.counters["burst_timers"] = w.burst_timers; res.counters["pipe_hangup_waits"] = w.pipe_waits;
 		res.counters["run_restarted_after_handler_exception"] = w.loop_restarts; res.counters["dev_cycles"] = w.dev_cycles; res.counters["dev_descriptor_reused"] = w.dev_reused; res.counters["dev_cycles_on_stale_number"] = w.dev_stale; res.counters["dev_attached_devices"] = w.dev_attached;
 		int n_ok = 0, n_cancel = 0;
 		if(!stop_race) for(size_t i=0;i<w.h.size();i++){ HRec &r = w.h[i]; if(!r.aba) continue; std::string nm = r.kind + "#" + std::to_string(i); std::string bad;
